@@ -92,7 +92,8 @@ EObs(ev) == [res |-> ev.res, um |-> ev.um, read |-> ev.read, written |-> ev.writ
 EMonEncode(m0, ev) ==
   LET m == [m0 EXCEPT !.ctr.k = @ + 1, !.ctr.calls = @ + 1] IN
   IF m.desync THEN m
-  ELSE IF ev.res = "P" THEN [EAddViols(m, <<"C06.enc-panic">>) EXCEPT !.desync = TRUE]
+  ELSE IF ev.res = "P" THEN
+    [EAddViols(m, IF ev.cap >= EncMinCap(m.cfg.repl) THEN <<"C06.enc-panic">> ELSE <<>>) EXCEPT !.desync = TRUE]
   ELSE IF m.done THEN [m EXCEPT !.desync = TRUE]
   ELSE
   LET cfg == m.cfg
